@@ -157,7 +157,18 @@ class _NonrecursivePickler(dill.Pickler):
                         self.lazywrites.extend(lws)
                         break
                 elif isinstance(lw, _LazyMemo):
-                    self.realmemoize(lw.obj)
+                    if id(lw.obj) in self.memo:
+                        # the object was reachable from its own contents (a
+                        # tuple held by one of its elements), so it has been
+                        # built and memoized while they were saved.  pickle's
+                        # recursive-tuple check ran before the deferred saves
+                        # and could not see that; do what it would have done:
+                        # drop the second copy and refer to the first
+                        self.realwrite(
+                            pickle.POP + self.get(self.memo[id(lw.obj)][0])
+                        )
+                    else:
+                        self.realmemoize(lw.obj)
                 else:
                     self.realwrite(*lw)
         self.realwrite(pickle.STOP)
